@@ -2,6 +2,7 @@ package main
 
 import (
 	"fmt"
+	"go/ast"
 	"go/types"
 	"os"
 	"go/token"
@@ -605,16 +606,34 @@ func (kc *kernelCtx) hooks(b *Block, ts *TypeSpec, recv string, inline map[strin
 	}
 	h.MatchIter = func(x *Exec, st *State, ls *LoopSpec, evs []Event) string {
 		env := mkEnv(st, nil)
-		var tracked []Event
-		for _, ev := range evs {
-			if env.Track(ev.Name) {
-				tracked = append(tracked, ev)
-			}
-		}
 		var pats []string
+		var patNames []string
 		for _, p := range ls.IterEmits {
 			if strings.TrimSpace(p) != "" {
 				pats = append(pats, strings.TrimSpace(p))
+				if ex, err := parseSpecExpr(strings.TrimSpace(p)); err == nil {
+					if call, ok := ex.(*ast.CallExpr); ok {
+						patNames = append(patNames, env.resolveEventName(exprString(call.Fun)))
+					} else {
+						patNames = append(patNames, env.resolveEventName(exprString(ex)))
+					}
+				}
+			}
+		}
+		// an iteration is matched on the events the enclosing contract tracks plus the kinds its own patterns name
+		var tracked []Event
+		for _, ev := range evs {
+			ok := env.Track(ev.Name) && !strings.HasPrefix(ev.Name, "call:") && !strings.HasPrefix(ev.Name, "chmake")
+			for _, pn := range patNames {
+				if eventNameMatch(pn, ev.Name) {
+					ok = true
+				}
+			}
+			if strings.HasPrefix(ev.Name, "destination.") {
+				ok = true
+			}
+			if ok {
+				tracked = append(tracked, ev)
 			}
 		}
 		if len(tracked) != len(pats) {
